@@ -90,6 +90,7 @@ type Violation struct {
 }
 
 type InMsg struct {
+	Raw    []byte // a control packet sent verbatim instead of a PUBLISH
 	QoS    int
 	ID     uint16
 	Topic  string
@@ -291,8 +292,10 @@ func (w *World) threadAlts(th *thread) (alts []alt, hasDefault bool) {
 					w.ev(Event{K: "read", T: th.name, C: c.id, B: clone(c.in[:n])})
 					c.in = c.in[n:]
 					c.nRead += n
+					c.sinceRdl += n
 				} else {
-					w.ev(Event{K: "read", T: th.name, C: c.id, R: errStr(err)})
+					// N: bytes the client received since it set the deadline that expires now
+					w.ev(Event{K: "read", T: th.name, C: c.id, R: errStr(err), N: c.sinceRdl})
 				}
 				r.n, r.err = n, err
 				if after != nil {
